@@ -10,50 +10,57 @@ Section Outer.
   Hypothesis A : agree s x T'.
   Lemma ag_setc : forall T c, T <> T' -> agree s (setc x T c) T'.
   Proof.
-    intros T c H. destruct A as [a_k0 a_c0 a_sent0 a_dlv0 a_cts0 a_rs0 a_wr0]. constructor; sproj; auto.
-    rewrite getc_setc_ne; auto.
+    intros T c H. destruct A as [a_k0 a_c0 a_lm0 a_pwok0 a_sent0 a_dlv0 a_cts0 a_rs0 a_wr0].
+    constructor; sproj; auto; rewrite getc_setc_ne; auto.
   Qed.
-  Lemma ag_add_sent : forall e, txn_of e <> Some T' -> agree s (add_sent x e) T'.
+  Lemma ag_setc_rel : forall c, (forall f, rel f = true -> cn c f = cn (getc x T') f) ->
+    c_lm c = c_lm (getc x T') -> c_pwok c = c_pwok (getc x T') -> agree s (setc x T' c) T'.
   Proof.
-    intros e H. destruct A as [a_k0 a_c0 a_sent0 a_dlv0 a_cts0 a_rs0 a_wr0]. constructor; sproj; auto.
-    intros y Hy. rewrite <- (a_sent0 y Hy). apply (lext_cons T' (s_sent x) e H y Hy).
+    intros c H1 H2 H3. destruct A as [a_k0 a_c0 a_lm0 a_pwok0 a_sent0 a_dlv0 a_cts0 a_rs0 a_wr0].
+    constructor; sproj; auto; rewrite getc_setc_eq; try congruence.
+    intros f Hf. rewrite H1; auto.
   Qed.
-  Lemma ag_add_dlv : forall e, txn_of e <> Some T' -> agree s (add_dlv x e) T'.
+  Lemma ag_add_sent : forall e, (txn_of e <> Some T' \/ relev e = false) -> agree s (add_sent x e) T'.
   Proof.
-    intros e H. destruct A as [a_k0 a_c0 a_sent0 a_dlv0 a_cts0 a_rs0 a_wr0]. constructor; sproj; auto.
-    intros y Hy. rewrite <- (a_dlv0 y Hy). apply (lext_cons T' (s_dlv x) e H y Hy).
+    intros e H. destruct A as [a_k0 a_c0 a_lm0 a_pwok0 a_sent0 a_dlv0 a_cts0 a_rs0 a_wr0]. constructor; sproj; auto.
+    intros y Hy Hr. rewrite <- (a_sent0 y Hy Hr). apply (lext_cons T' (s_sent x) e H y Hy Hr).
   Qed.
-  Lemma ag_w_cts : forall e, txn_of e <> Some T' -> agree s (w_cts x (e :: s_cts x)) T'.
+  Lemma ag_add_dlv : forall e, (txn_of e <> Some T' \/ relev e = false) -> agree s (add_dlv x e) T'.
   Proof.
-    intros e H. destruct A as [a_k0 a_c0 a_sent0 a_dlv0 a_cts0 a_rs0 a_wr0]. constructor; sproj; auto.
-    intros y Hy. rewrite <- (a_cts0 y Hy). apply (lext_cons T' (s_cts x) e H y Hy).
+    intros e H. destruct A as [a_k0 a_c0 a_lm0 a_pwok0 a_sent0 a_dlv0 a_cts0 a_rs0 a_wr0]. constructor; sproj; auto.
+    intros y Hy Hr. rewrite <- (a_dlv0 y Hy Hr). apply (lext_cons T' (s_dlv x) e H y Hy Hr).
+  Qed.
+  Lemma ag_w_cts : forall e, (txn_of e <> Some T' \/ relev e = false) -> agree s (w_cts x (e :: s_cts x)) T'.
+  Proof.
+    intros e H. destruct A as [a_k0 a_c0 a_lm0 a_pwok0 a_sent0 a_dlv0 a_cts0 a_rs0 a_wr0]. constructor; sproj; auto.
+    intros y Hy Hr. rewrite <- (a_cts0 y Hy Hr). apply (lext_cons T' (s_cts x) e H y Hy Hr).
   Qed.
   Lemma ag_w_rs : forall T c j, T <> T' -> agree s (w_rs x ((T, c, j) :: s_rs x)) T'.
   Proof.
-    intros T c j H. destruct A as [a_k0 a_c0 a_sent0 a_dlv0 a_cts0 a_rs0 a_wr0]. constructor; sproj; auto.
+    intros T c j H. destruct A as [a_k0 a_c0 a_lm0 a_pwok0 a_sent0 a_dlv0 a_cts0 a_rs0 a_wr0]. constructor; sproj; auto.
     intros c' j'. rewrite <- a_rs0. cbn [In]. split; auto. intros [E | E]; auto. inversion E. congruence.
   Qed.
   Lemma ag_w_rs2 : forall y T c j, T <> T' -> s_rs y = s_rs x -> agree s (w_rs x ((T, c, j) :: s_rs y)) T'.
   Proof. intros y T c j H E. rewrite E. apply ag_w_rs. auto. Qed.
   Lemma ag_w_wr : forall T c, T <> T' -> agree s (w_wr x ((T, c) :: s_wr x)) T'.
   Proof.
-    intros T c H. destruct A as [a_k0 a_c0 a_sent0 a_dlv0 a_cts0 a_rs0 a_wr0]. constructor; sproj; auto.
+    intros T c H. destruct A as [a_k0 a_c0 a_lm0 a_pwok0 a_sent0 a_dlv0 a_cts0 a_rs0 a_wr0]. constructor; sproj; auto.
     intros c'. rewrite <- a_wr0. cbn [In]. split; auto. intros [E | E]; auto. inversion E. congruence.
   Qed.
   Lemma ag_w_wr2 : forall y T c, T <> T' -> s_wr y = s_wr x -> agree s (w_wr x ((T, c) :: s_wr y)) T'.
   Proof. intros y T c H E. rewrite E. apply ag_w_wr. auto. Qed.
-  Lemma ag_w_cts2 : forall y e, txn_of e <> Some T' -> s_cts y = s_cts x -> agree s (w_cts x (e :: s_cts y)) T'.
+  Lemma ag_w_cts2 : forall y e, (txn_of e <> Some T' \/ relev e = false) -> s_cts y = s_cts x -> agree s (w_cts x (e :: s_cts y)) T'.
   Proof. intros y e H E. rewrite E. apply ag_w_cts. auto. Qed.
-  Lemma ag_w_tso : forall v, agree s (w_tso x v) T'. Proof. intros. destruct A as [a_k0 a_c0 a_sent0 a_dlv0 a_cts0 a_rs0 a_wr0]. constructor; sproj; auto. Qed.
-  Lemma ag_w_own : forall v, agree s (w_own x v) T'. Proof. intros. destruct A as [a_k0 a_c0 a_sent0 a_dlv0 a_cts0 a_rs0 a_wr0]. constructor; sproj; auto. Qed.
-  Lemma ag_w_crashed : forall v, agree s (w_crashed x v) T'. Proof. intros. destruct A as [a_k0 a_c0 a_sent0 a_dlv0 a_cts0 a_rs0 a_wr0]. constructor; sproj; auto. Qed.
-  Lemma ag_w_csl : forall v, agree s (w_csl x v) T'. Proof. intros. destruct A as [a_k0 a_c0 a_sent0 a_dlv0 a_cts0 a_rs0 a_wr0]. constructor; sproj; auto. Qed.
-  Lemma ag_w_seen : forall v, agree s (w_seen x v) T'. Proof. intros. destruct A as [a_k0 a_c0 a_sent0 a_dlv0 a_cts0 a_rs0 a_wr0]. constructor; sproj; auto. Qed.
-  Lemma ag_w_gc : forall v, agree s (w_gc x v) T'. Proof. intros. destruct A as [a_k0 a_c0 a_sent0 a_dlv0 a_cts0 a_rs0 a_wr0]. constructor; sproj; auto. Qed.
+  Lemma ag_w_tso : forall v, agree s (w_tso x v) T'. Proof. intros. destruct A as [a_k0 a_c0 a_lm0 a_pwok0 a_sent0 a_dlv0 a_cts0 a_rs0 a_wr0]. constructor; sproj; auto. Qed.
+  Lemma ag_w_own : forall v, agree s (w_own x v) T'. Proof. intros. destruct A as [a_k0 a_c0 a_lm0 a_pwok0 a_sent0 a_dlv0 a_cts0 a_rs0 a_wr0]. constructor; sproj; auto. Qed.
+  Lemma ag_w_crashed : forall v, agree s (w_crashed x v) T'. Proof. intros. destruct A as [a_k0 a_c0 a_lm0 a_pwok0 a_sent0 a_dlv0 a_cts0 a_rs0 a_wr0]. constructor; sproj; auto. Qed.
+  Lemma ag_w_csl : forall v, agree s (w_csl x v) T'. Proof. intros. destruct A as [a_k0 a_c0 a_lm0 a_pwok0 a_sent0 a_dlv0 a_cts0 a_rs0 a_wr0]. constructor; sproj; auto. Qed.
+  Lemma ag_w_seen : forall v, agree s (w_seen x v) T'. Proof. intros. destruct A as [a_k0 a_c0 a_lm0 a_pwok0 a_sent0 a_dlv0 a_cts0 a_rs0 a_wr0]. constructor; sproj; auto. Qed.
+  Lemma ag_w_gc : forall v, agree s (w_gc x v) T'. Proof. intros. destruct A as [a_k0 a_c0 a_lm0 a_pwok0 a_sent0 a_dlv0 a_cts0 a_rs0 a_wr0]. constructor; sproj; auto. Qed.
 
   Lemma ag_same_but_kst : forall y, same_but_kst x y -> (forall k, kget y T' k = kget x T' k) -> agree s y T'.
   Proof.
-    intros y H K. destruct A as [a_k0 a_c0 a_sent0 a_dlv0 a_cts0 a_rs0 a_wr0]. rewrite H. constructor; sproj; auto.
+    intros y H K. destruct A as [a_k0 a_c0 a_lm0 a_pwok0 a_sent0 a_dlv0 a_cts0 a_rs0 a_wr0]. rewrite H. constructor; sproj; auto.
     intros k. rewrite <- a_k0. rewrite <- K. rewrite H. reflexivity.
   Qed.
   Lemma ag_step_key : forall T k tr y, T <> T' -> tr_ok tr -> step_key x T k tr = Some y -> agree s y T'.
@@ -88,14 +95,14 @@ Ltac okinv H := match type of H with Ok _ = Ok _ => inversion H; subst; clear H 
 Ltac ag_tac :=
   repeat first [ apply agree_refl
                | apply ag_setc; [| congruence]
-               | apply ag_add_sent; [| cbn [txn_of]; congruence]
-               | apply ag_add_dlv; [| cbn [txn_of]; congruence]
-               | apply ag_w_cts; [| cbn [txn_of]; congruence]
+               | apply ag_add_sent; [| first [left; cbn [txn_of]; congruence | right; reflexivity]]
+               | apply ag_add_dlv; [| first [left; cbn [txn_of]; congruence | right; reflexivity]]
+               | apply ag_w_cts; [| first [left; cbn [txn_of]; congruence | right; reflexivity]]
                | apply ag_w_rs; [| congruence]
                | apply ag_w_rs2; [| congruence | reflexivity]
                | apply ag_w_wr; [| congruence]
                | apply ag_w_wr2; [| congruence | reflexivity]
-               | apply ag_w_cts2; [| cbn [txn_of]; congruence | reflexivity]
+               | apply ag_w_cts2; [| first [left; cbn [txn_of]; congruence | right; reflexivity] | reflexivity]
                | apply ag_w_tso | apply ag_w_own | apply ag_w_crashed | apply ag_w_csl | apply ag_w_seen | apply ag_w_gc
                | match goal with
                  | E : step_keys _ _ _ _ = Some ?y |- agree _ ?y _ =>
@@ -168,4 +175,32 @@ Proof.
   - okinv H. ag_tac.
   - okinv H. ag_tac.
   - okinv H. ag_tac.
+Qed.
+
+(* events that touch nothing the invariants talk about: they agree even for their own transaction *)
+Definition irrel (e : event) : bool :=
+  match e with
+  | EBegin _ _ | ECommitCall _ _ | ERbReply _ _ _ _ | EPlSend _ _ _ _ _ | EPlDeliver _ _ _ _ _ | EPlReply _ _ _ _ _
+  | EPrSend _ _ _ _ | EPrDeliver _ _ _ _ _ | EPrReply _ _ _ _ _ | ECtsSend _ _ _ _ _ _ _ _ | ECslSend _ _ _
+  | ECslReply _ _ _ _ | ERsReply _ _ _ _ _ | EHbSend _ _ _ _ | EHbDeliver _ _ _ _ _ | ELockSeen _ _ _
+  | ERollbackTold _ => true
+  | _ => false
+  end.
+
+Ltac ag_own :=
+  repeat first [ apply agree_refl
+               | apply ag_setc_rel; [| intros f0 Hf0; destruct f0; try discriminate Hf0; reflexivity | reflexivity | reflexivity]
+               | apply ag_add_sent; [| right; reflexivity]
+               | apply ag_add_dlv; [| right; reflexivity]
+               | apply ag_w_own | apply ag_w_csl | apply ag_w_seen ].
+
+Lemma step_agree_irrel : forall s e s' T', stepr s e = Ok s' -> irrel e = true -> agree s s' T'.
+Proof.
+  intros s e s' T' H Hi.
+  destruct (option_map (N.eqb T') (txn_of e)) as [[|] |] eqn:E.
+  2: { apply (step_agree s e s' T' H). intros E'. rewrite E' in E. cbn in E. rewrite N.eqb_refl in E. discriminate. }
+  2: { apply (step_agree s e s' T' H). intros E'. rewrite E' in E. discriminate. }
+  destruct_event e; cbn [irrel] in Hi; try discriminate Hi; cbn [txn_of option_map] in E; inversion E as [E'];
+    apply N.eqb_eq in E'; subst T'; cbn [stepr] in H; unfold plain_reply, plain_send, step_cts_send, step_hb_send in H;
+    chks H; okinv H; try (destruct (fb (getc s T) FPlAny)); ag_own.
 Qed.
